@@ -175,10 +175,13 @@ def check_case(case, res=None):
 def cases(draw):
     tree = dict(draw(specgen.trees(features=FEATURES)))
     tree.pop("_excluded", None)
-    return {"tree": tree, "firsts": draw(st.lists(st.integers(0, 10 ** 6), min_size=4, max_size=4))}
+    k = 10 if specgen._TIER[0] == "thorough" else 4
+    return {"tree": tree, "firsts": draw(st.lists(st.integers(0, 10 ** 6), min_size=k, max_size=k))}
 
 
 def run_task(task):
+    from vlib import specgen as _sg
+    _sg.set_tier(task.get("_tier"))
     res = TaskResult()
     try:
         hyp.campaign(cases(), lambda c: check_case(c, res), task["n"], task["seed"], res,
